@@ -113,6 +113,22 @@ def r_accum(prog, tier):
                     if not ok and f.fq in FRESH_KEY:
                         ok = True
                         why = 'FRESH-KEY table: ' + FRESH_KEY[f.fq]
+                    if ok is False and isinstance(v, (ast.Name, ast.Call, ast.BinOp, ast.Subscript)):
+                        # positive evidence that the slot may already hold a count: the same function creates entries of
+                        # this table only when absent, or adds to it elsewhere
+                        base_txt = unparse(base)
+                        evidence = False
+                        for m_ in cfg.eval_nodes():
+                            if m_.kind == 'stmt' and m_.id != n.id:
+                                t_ = unparse(m_.ast)
+                                if isinstance(m_.ast, ast.AugAssign) and unparse(m_.ast.target).startswith(base_txt + '['):
+                                    evidence = True
+                            if m_.kind == 'assume' and (' in %s' % base_txt) in unparse(m_.ast):
+                                evidence = True
+                        if not evidence:
+                            ok = None
+                            why = 'plain store of a count; nothing in this function shows that the slot can exist already'
+
                 obs.append(Ob('R-ACCUM/SLOT', f.fq, 'count slot store `%s` accumulates' % unparse(st)[:90], ok, why,
                               construct='slot:' + unparse(st), line=n.lineno))
     # ---- count handed to binarize_rule
@@ -465,9 +481,15 @@ def r_arity(prog, tier):
     for (ktxt, nid), (kexpr, n, tgt) in sorted(keys.items(), key=lambda x: x[0][1]):
         if isinstance(kexpr, ast.Name) and kexpr.id == func_p:
             facts = [fa for (fa, _) in facts_at(cfg, nid)]
-            small = any(fa[0] == 'cmp' and fa[1] == 'len(%s[1:])' % func_p and fa[2] == '<=' and fa[3] == '2' for fa in facts) \
-                or any(fa[0] == 'cmp' and fa[1] == 'len(%s)' % func_p and fa[2] == '<=' and fa[3] == '3' for fa in facts) \
-                or any(fa[0] == 'cmp' and fa[1] == 'len(%s[1:])' % func_p and fa[2] == '<' and fa[3] == '3' for fa in facts)
+            small = False
+            from ..linear import norm_compare
+            for a_ in cfg.assumes_at(nid):
+                if isinstance(a_.ast, ast.Compare):
+                    nf = norm_compare(f, a_.ast, a_.pol)
+                    if nf and nf[0] == 'le' and len(nf[1]) == 1 and nf[1][0][1] == 1:
+                        atom, c_ = nf[1][0][0], nf[2]
+                        if (atom == 'len(%s[1:])' % func_p and c_ <= 2) or (atom == 'len(%s)' % func_p and c_ <= 3):
+                            small = True
             # verbatim: the linearization key is the parameter
             d, _ = _sub_depth(tgt)
             lin_ok = True
@@ -1242,7 +1264,9 @@ def r_discont(prog, tier):
     ok = None
     for n in walk_own(f.node):
         if isinstance(n, ast.Assign) and unparse(n.targets[0]).endswith('[0]'):
-            ok = unparse(n.value) == 'len(%s)' % f.params[0]
+            ok = True if unparse(n.value) == 'len(%s)' % f.params[0] else (
+                False if (isinstance(n.value, ast.Constant) or (isinstance(n.value, ast.Call) and unparse(n.value.func) == 'len'
+                                                              and unparse(n.value.args[0]) != f.params[0])) else None)
     obs.append(Ob('R-DISCONT/CHAIN', f.fq, 'the fan-out of the left-hand side is the number of its arguments', ok,
                   'result[0] = len(lin)' if ok else 'position 0 of the fan-out vector is not len(lin)',
                   construct='chain-fanout', line=f.node.lineno))
